@@ -8,7 +8,7 @@ C05_num_roundtrip_unsigned C05_num_roundtrip_signed C05_num_roundtrip_hex C05_se
 C05_TopoEquiv_refl C05_TopoEquiv_symm C05_TopoEquiv_trans C05_TopoEquiv_fields C05_TopoEquiv_implies_tree_sets
 C05_sanitize_idem
 C05_tree_roundtrip C05_subtree_roundtrip C05_tree_children_preserved C05_tree_fixpoint C05_tree_norm_idem C05_tree_norm_valid
-C05_userdata_roundtrip C05_pagetype_roundtrip C05_tree_roundtrip_start_tags_as_bytes C05_tree_export_wellformed""".split()]
+C05_userdata_roundtrip C05_pagetype_roundtrip C05_tree_roundtrip_start_tags_as_bytes C05_tree_export_wellformed C05_tree_second_export C05_tree_second_export_same_attrs""".split()]
 CHECK_MODULES = ["Hw.Props.C05"]
 TRUSTED = [
     "PARTIAL: the start tag of <object> and the <info> elements are modelled and proved at the object level (exportAttrs / importAttrs, tied by "
